@@ -67,7 +67,7 @@ CHECKS = {
         "text": "The same history exploration (plain alphabet to closure / depth 2, full alphabet incl. skip, scc, block shortcuts, "
                 "reclaim, pickle at depth 2) evaluates depth = longest root path, contiguous ids and find_node on all 3^n spaces "
                 "in every reached state, is_subgraph / is_isomorphic on all ordered pairs of reached states, and parses summary() "
-                "after build() back against the reference attractors on the input universes.",
+                "after build() back against the reference attractors on the input universes. Plus the depth-bookkeeping harness: the real _ensure_edge/_update_node_depth on every small DAG shape x both child orders x every order of single-node expansions, as an explicit state graph over (expanded set, depth vector).",
         "ref": "DESIGN.md §3 C20", "note": TB,
         "technique": "explicit-state model checking of API-call histories plus exhaustive input-universe enumeration",
     },
@@ -102,13 +102,13 @@ CHECKS = {
         "text": "For every network x non-empty target x strategy x driver bound x forbidden set x skip_feedforward setting, on the fresh "
                 "diagram and on every diagram state reachable by one call of the full alphabet, every intervention reported successful "
                 "is validated: reference LDOI of each override contains the motif, and an explicit-state search of the overridden "
-                "network shows every attractor reachable from the previous trap space has the motif's values; final space vs target.",
+                "network shows every attractor reachable from the previous trap space has the motif's values; final space vs target. Plus a synthetic-diagram harness: successions_to_target on a real SuccessionDiagram object carrying every small DAG shape x every assignment of node ids x every target; every returned succession must end in a node without hot descendants.",
         "ref": "DESIGN.md §3 C06", "note": TB, "technique": "explicit-state model checking: exhaustive argument/history enumeration with explicit-state validation of every reported override",
     },
     "C07": {
         "text": "On fresh diagrams, for every network x every non-empty target x strategy x driver bound {None,0,1,2,3} x forbidden subset x "
                 "successful_only, the returned successions are compared as a multiset with the reference target-directed expansion and "
-                "every step's override list with the reference inclusion-minimal driver sets (reference LDOI).",
+                "every step's override list with the reference inclusion-minimal driver sets (reference LDOI). A multiplexed-input universe (one source selecting between two 3-variable networks) is run with a reduced grid so that the same motif is met in contexts with different drivers.",
         "ref": "DESIGN.md §3 C07", "note": TB, "technique": "explicit-state model checking: exhaustive input/argument enumeration against a reference control model",
     },
     "C08": {
@@ -128,7 +128,7 @@ CHECKS = {
         "text": "Work is measured as executed loop back-edges per loop site inside biobalm (sys.monitoring) and bounded by a closed-form "
                 "budget of the state-space and diagram size; every public operation on every input of the universes and on every "
                 "diagram state reachable by one call of the full alphabet must finish below the budget (else it is aborted from inside "
-                "the callback and reported with the loop's file:line); soft and hard timeouts count as violations.",
+                "the callback and reported with the loop's file:line); soft and hard timeouts count as violations. Also: the smallest values of the numeric configuration fields on stub queries and bfs+seeds, free-input networks, and name sanitization on every ordered triple of an awkward-name pool.",
         "ref": "DESIGN.md §3 C13", "note": TB + " Bounded termination only: no ranking-function proof beyond the enumerated space.",
         "technique": "explicit-state model checking with a work monitor: exhaustive enumeration of inputs and call histories, loop back-edge budgets per loop site",
     },
@@ -136,7 +136,7 @@ CHECKS = {
         "text": "Differential explicit-state check: at every diagram state reachable by one call (quick) / two calls (thorough) of the full "
                 "alphabet a pickle round trip or reclaim_node_data is inserted, followed by every operation of a representative alphabet "
                 "and a closing sequence (bfs, seeds on all nodes, control); return values and the observable diagram after every step "
-                "must equal those of the run without the insertion. Universes include free-input variants.",
+                "must equal those of the run without the insertion. Universes include free-input variants. Small networks are explored a second time with tiny max_motifs_per_node / attractor_candidates_limit values (limit errors are compared like any other result).",
         "ref": "DESIGN.md §3 C16", "note": TB, "technique": "explicit-state model checking: exhaustive insertion points over explored API histories with a differential oracle",
     },
     "C17": {
@@ -144,7 +144,7 @@ CHECKS = {
                 "negation patterns x 4 formula styles x 3 file formats) and its generators on kernel / 3-variable universes are "
                 "enumerated; the library's full diagram, minimal trap spaces and attractors on each presentation are mapped back through "
                 "the transformation and compared with the reference model of the original network; name sanitization is checked on all "
-                "ordered tuples of a pool of 8 awkward names (every collision pattern).",
+                "ordered tuples of a pool of 8 awkward names (every collision pattern). Presentations also include declaring the variables through the API in every order, names that contain the Petri-net place prefixes, and identity variables written as free inputs (with the source-SCC strategy).",
         "ref": "DESIGN.md §3 C17", "note": TB + " AEON's parsers/writers are trusted to implement their formats.",
         "technique": "explicit-state model checking: exhaustive enumeration of inputs x presentation transformations against a presentation-independent reference model",
     },
@@ -153,7 +153,7 @@ CHECKS = {
                 "products, by three strategies), every input valuation of all input-conditioned networks (sub-diagram below the "
                 "valuation's node vs the diagram of the network with constant inputs, attractors by three strategies), and a "
                 "differential run of build() against AEON's symbolic attractor enumeration on every repository model up to a size / "
-                "time cap (unfinished models are listed, never counted as passed).",
+                "time cap (unfinished models are listed, never counted as passed). Input-conditioned universes include multiplexed networks in which the input switches a motif-avoidant attractor on and off; unions are also expanded by the attractor-seed and block strategies.",
         "ref": "DESIGN.md §3 C18", "note": TB + " Part (c) is a differential check on a fixed corpus and trusts AEON's Attractors.attractors.",
         "technique": "explicit-state model checking: exhaustive enumeration of composed input universes, plus a differential corpus run against an independent symbolic explorer",
     },
@@ -161,7 +161,7 @@ CHECKS = {
         "text": "Environment enumeration: one interpreter process per PYTHONHASHSEED value 0..255 (768 thorough) dumps every (network, "
                 "strategy) of a batch; the observed iteration order of each variable-name set is recorded and every permutation of every "
                 "<=4-element name set must have been observed (so hash-order nondeterminism is exhausted, not sampled); in-process: "
-                "second run and run after every entry of a preceding-call menu. All dumps of one (network, strategy) must be byte-identical.",
+                "second run and run after every entry of a preceding-call menu. All dumps of one (network, strategy) must be byte-identical. Further process histories: the batch in reverse order and every network alone in a fresh process; an exception is a dump value; a preceding unrelated call that fails is itself a violation.",
         "ref": "DESIGN.md §3 C19", "note": TB,
         "technique": "explicit-state model checking of the environment: exhaustive enumeration of hash seeds (until all set iteration orders are covered) and preceding-call sequences",
     },
